@@ -1,20 +1,168 @@
 import JominiModel.Model.BinLexer
 import JominiModel.Model.BinReader
+import JominiModel.Spec.BinLexer
+import JominiModel.Proofs.BinLexer
+import JominiModel.Proofs.Buffer
+import JominiModel.Spec.BinReader
+import JominiModel.Proofs.BinReader
 import JominiModel.Generated.Tables
 /-
 C08 — Streaming binary reader equals the slice lexer; token encoding round-trips.
 Only property theorems live here; helper lemmas are in `Proofs/`.
 -/
 namespace Jomini.Props.C08
-open Jomini Jomini.BinLexer
+open Jomini Jomini.BinLexer Jomini.BinReader
 
 /-- the model's 13 lexeme id constants are the ones measured from the compiled code, and
-`isId` is false on exactly the measured reserved set. -/
+`isId` is false on exactly the measured reserved set (`LexemeId::is_id` probed on all 65536
+values). -/
 theorem C08_lexeme_ids_measured :
     Tables.binLexemeIds = [OPEN, CLOSE, EQUAL, U32, U64, I32, BOOL, QUOTED, UNQUOTED, F32, F64, RGB, I64]
-    ∧ (List.range 65536).filter (fun x => !isId x) = Tables.binReservedIds := by
+    ∧ (∀ x : Nat, isId x = false ↔ x ∈ Tables.binReservedIds) := by
   constructor
   · rfl
-  · decide +kernel
+  · intro x
+    simp only [isId, Tables.binReservedIds, OPEN, CLOSE, EQUAL, U32, U64, I32, BOOL, QUOTED, UNQUOTED,
+      F32, F64, RGB, I64, Bool.not_eq_eq_eq_not, Bool.not_false, Bool.or_eq_true, beq_iff_eq,
+      List.mem_cons, List.not_mem_nil, or_false]
+    constructor <;> (intro h; omega)
+
+/-- Token codec round trip: reading what `Token::write` wrote gives the token back and leaves
+exactly the bytes that followed; for a whole sequence the lexer returns the sequence, ends
+cleanly and consumes every byte.  `WfTok` excludes `Id x` for the 13 reserved ids and strings
+longer than 65535 bytes (both exclusions are real: see the harness counter
+`write:excluded-differs`). -/
+theorem C08_codec :
+    (∀ (t : Token) (r : Bytes), WfTok t → readToken (t.write ++ r) = .ok (t, r)) ∧
+    (∀ toks : List Token, (∀ t ∈ toks, WfTok t) →
+      lexAll (toks.flatMap Token.write) = (toks, .done, [])) :=
+  ⟨fun t r h => readToken_write t r h, lexAll_write⟩
+
+example : WfTok (.quoted [3, 0, 4, 0]) ∧ WfTok (.id 0x2838) ∧ WfTok (.rgb ⟨1, 2, 3, some 4⟩) ∧ WfTok (.i64 (-1)) := by
+  decide
+
+/-- the two exclusions of `WfTok` are not artefacts of the proof: a reserved id re-lexes as
+its lexeme, and a 65536-byte string's length prefix wraps to 0. -/
+theorem C08_codec_exclusions :
+    readToken ((Token.id OPEN).write) = .ok (.open, []) ∧
+    (∀ s : Bytes, s.length = 65536 →
+      readToken ((Token.quoted s).write) = .ok (.quoted [], s)) := by
+  constructor
+  · rfl
+  · intro s hs
+    have h0 : leBytes 2 s.length = [0, 0] := by rw [hs]; decide
+    simp only [Token.write, h0]
+    simp [readToken, P.bind, P.map, readId_le, readString, getSplit, leNat,
+      CLOSE, OPEN, EQUAL, U32, U64, I32, BOOL, QUOTED]
+
+/-- `read_token` is prefix stable: a verdict `ok` (with the same token, the unread rest
+extended) or `invalidRgb` reached on a window is the verdict on every extension of the
+window.  Consequently `eof` is the only verdict more input can change. -/
+theorem C08_prefix_stable (w s : Bytes) :
+    (∀ t r, readToken w = .ok (t, r) → readToken (w ++ s) = .ok (t, r ++ s)) ∧
+    (readToken w = .error .invalidRgb → readToken (w ++ s) = .error .invalidRgb) :=
+  ⟨fun t r h => readToken_stable.ok w s t r h, fun h => readToken_stable.rgb w s h⟩
+
+example : readToken [0x0c, 0, 1, 0, 0, 0] = .ok (.i32 1, []) := by rfl
+example : readToken [0x43, 2, 4, 0, 0, 0, 0, 0, 0, 0, 0, 0, 0, 0, 0, 0, 0, 0, 0, 0, 0, 0, 0, 0, 0, 0] = .error .invalidRgb := by
+  rfl
+
+/-- `next_token` / `peek_token` / `position` of the `Lexer` object agree with `read_token` on
+the bare byte list: the `next_token` loop is `lexAll` with `position() = bytes consumed`, and
+`peek_token` is `read_token` without the state change. -/
+theorem C08_lexer_api (d : Bytes) :
+    Lexer.run d = ((lexAll d).1, (lexAll d).2.1, d.length - (lexAll d).2.2.length) ∧
+    (∀ (l : Lexer) (t : Token), l.peekToken = some t ↔ ∃ r, readToken l.data = .ok (t, r)) :=
+  ⟨Lexer.run_eq d, Lexer.peekToken_eq⟩
+
+/-- `Buffer_refines`: the concrete `BufferWindow` (memory of `cap` bytes, `start`, `end`,
+`prior_reads`) refines the abstract view "position, window contents, undelivered bytes".
+The invariant `Buf.Inv` = `start ≤ end ≤ |mem|` (`|mem| = cap` in builder mode) and
+`window ++ undelivered = data.drop position` is preserved by `fill_buf` in each of its
+outcomes — slice mode `Ok(0)`, `BufferFull`, a successful read (which appends exactly the
+delivered bytes to the window), and a *failed* read (window contents, position and
+undelivered bytes all unchanged) — and by `advance n` for `n` inside the window (which drops
+`n` bytes from the window and adds `n` to the position).  Also the C20 clause "a failed read
+delivers nothing and the invariant survives". -/
+theorem C08_Buffer_refines (b : Buf) (src : Src) (data : Bytes) (h : Buf.Inv b src data)
+    (hwf : Src.WfSched src.sched) :
+    ((b.cap = 0 ∧ b.fillBuf src = (.ok 0, b, src)) ∨
+     (0 < b.cap ∧ b.cap ≤ b.windowLen ∧ b.fillBuf src = (.error .bufferFull, b, src)) ∨
+     (0 < b.cap ∧ b.windowLen < b.cap ∧ ∃ n b' src', b.fillBuf src = (.ok n, b', src') ∧
+       Buf.Inv b' src' data ∧ b'.position = b.position ∧ b'.cap = b.cap ∧
+       b'.window = b.window ++ src.rest.take n ∧ b'.windowLen = b.windowLen + n ∧
+       src'.rest = src.rest.drop n ∧ n ≤ src.rest.length ∧
+       src'.delivered = src.delivered + n ∧ Src.WfSched src'.sched ∧ (n = 0 → src.rest = [])) ∨
+     (0 < b.cap ∧ b.windowLen < b.cap ∧ ∃ b' src', b.fillBuf src = (.error .io, b', src') ∧
+       Buf.Inv b' src' data ∧ b'.position = b.position ∧ b'.cap = b.cap ∧ b'.window = b.window ∧
+       b'.windowLen = b.windowLen ∧
+       src'.rest = src.rest ∧ src'.delivered = src.delivered ∧ Src.WfSched src'.sched)) ∧
+    (∀ n, n ≤ b.windowLen → ∃ b', b.advance n = some b' ∧ Buf.Inv b' src data ∧
+      b'.window = b.window.drop n ∧ b'.position = b.position + n ∧ b'.cap = b.cap ∧
+      b'.windowLen = b.windowLen - n) ∧
+    (∀ n, b.windowLen < n → b.advance n = none) :=
+  ⟨Buf.fillBuf_cases b src data h hwf, fun n hn => Buf.advance_refines b src data h n hn,
+   fun n hn => Buf.advance_none b n hn h.se⟩
+
+/-- the invariant holds initially, for a built reader over any schedule and in slice mode -/
+theorem C08_Buffer_refines_init (buffer data : Bytes) (sched : List Step) :
+    Buf.Inv (Buf.build buffer) (Src.new data sched) data ∧
+    Buf.Inv (Buf.fromSlice data) (Src.new [] []) data :=
+  ⟨Buf.inv_build buffer data sched, Buf.inv_fromSlice data⟩
+
+example : Src.WfSched [.give 3, .fail, .give 1, .failForever] := by simp [Src.WfSched]
+
+/-- **Streaming reader = slice lexer.**  For every input, every buffer (fresh or recycled,
+any initial contents) in which every token of the input fits (`Fits`, see `Spec/BinReader`;
+`buffer.length ≥ 65539` always suffices for the tokens themselves) and every fault-free read
+schedule (any chunking down to one byte per read), `while let Some(t) = reader.next()?`
+yields exactly the tokens of the slice lexer, ends the same way (clean end / `Eof` /
+`InvalidRgb`, never `BufferFull` or an I/O error) and stops at the same byte position; at a
+clean end that position is `|data|` and every byte has been delivered.
+This is the fault-free corollary of `C20_bin_reader` (same one-call lemma `next_spec`). -/
+theorem C08_stream_eq_lexer (buffer data : Bytes) (sched : List Step) (hcap : 0 < buffer.length)
+    (hwf : Src.WfSched sched) (hnf : Src.NoFaults sched) (hfit : Fits buffer.length data) :
+    (Reader.streamAll (Reader.build buffer (Src.new data sched))).1 = (lexAll data).1 ∧
+    (Reader.streamAll (Reader.build buffer (Src.new data sched))).2.1 = embed (lexAll data).2.1 ∧
+    (Reader.streamAll (Reader.build buffer (Src.new data sched))).2.2.position
+      = data.length - (lexAll data).2.2.length ∧
+    ((lexAll data).2.1 = .done →
+      (Reader.streamAll (Reader.build buffer (Src.new data sched))).2.2.position = data.length ∧
+      (Reader.streamAll (Reader.build buffer (Src.new data sched))).2.2.src.rest = []) :=
+  streamAll_eq data _ (rinv_build buffer data sched hcap hwf) rfl (Or.inr hfit) hnf
+
+example : Fits 6 [0x0c, 0, 1, 0, 0, 0] ∧ Fits 30 [0x43, 2, 3, 0, 0x14, 0, 1, 0, 0, 0, 0x14, 0] :=
+  ⟨fitsBuffer_sound _ _ (by rfl), fitsBuffer_sound _ _ (by rfl)⟩
+
+example : Src.WfSched [.give 2, .give 1, .repeat 3] ∧ Src.NoFaults [.give 2, .give 1, .repeat 3] := by
+  simp [Src.WfSched, Src.NoFaults]
+
+/-- the same for `TokenReader::from_slice` (no buffer, no schedule, no hypothesis) -/
+theorem C08_slice_eq_lexer (data : Bytes) :
+    (Reader.streamAll (Reader.fromSlice data)).1 = (lexAll data).1 ∧
+    (Reader.streamAll (Reader.fromSlice data)).2.1 = embed (lexAll data).2.1 ∧
+    (Reader.streamAll (Reader.fromSlice data)).2.2.position = data.length - (lexAll data).2.2.length :=
+  let h := streamAll_eq data _ (rinv_fromSlice data) rfl (Or.inl rfl) (by simp [Reader.fromSlice, Src.new, Src.NoFaults])
+  ⟨h.1, h.2.1, h.2.2.1⟩
+
+/-- The general statement over schedules *with* fault steps (the C20 theorem, restated here so
+that it is audited with this property): see `C20_bin_reader` in `Proofs/BinReader.lean`. -/
+theorem C08_stream_with_faults (buffer data : Bytes) (sched : List Step) (hcap : 0 < buffer.length)
+    (hwf : Src.WfSched sched) (hfit : Fits buffer.length data) (n : Nat) :
+    callToks (Reader.calls n (Reader.build buffer (Src.new data sched))).1 <+: (lexAll data).1 ∧
+    (Call.done ∈ (Reader.calls n (Reader.build buffer (Src.new data sched))).1 →
+      callToks (Reader.calls n (Reader.build buffer (Src.new data sched))).1 = (lexAll data).1 ∧
+      (lexAll data).2.1 = .done) ∧
+    (∀ e, Call.err (.lexer e) ∈ (Reader.calls n (Reader.build buffer (Src.new data sched))).1 →
+      callToks (Reader.calls n (Reader.build buffer (Src.new data sched))).1 = (lexAll data).1 ∧
+      (lexAll data).2.1 = .err e) ∧
+    (Call.err .bufferFull ∉ (Reader.calls n (Reader.build buffer (Src.new data sched))).1 ∧
+     Call.err .ub ∉ (Reader.calls n (Reader.build buffer (Src.new data sched))).1 ∧
+     Call.err .fuel ∉ (Reader.calls n (Reader.build buffer (Src.new data sched))).1) ∧
+    ((Reader.calls n (Reader.build buffer (Src.new data sched))).2.position ≤
+      (Reader.calls n (Reader.build buffer (Src.new data sched))).2.src.delivered ∧
+     (Reader.calls n (Reader.build buffer (Src.new data sched))).2.src.delivered +
+      (Reader.calls n (Reader.build buffer (Src.new data sched))).2.src.rest.length = data.length) :=
+  C20_bin_reader buffer data sched hcap hwf hfit n
 
 end Jomini.Props.C08
